@@ -1,11 +1,59 @@
-/- Spec-driver operations of cluster B (see Driver/Main.lean). Imports Spec/* only — never Gen or Model. -/
+/- Spec-driver operations of cluster B (C03, C04, C17, C15, C19). Imports Spec/* only — never Gen or Model. -/
 import PdbVerif.Driver.Json
+import PdbVerif.Driver.BJson
+import PdbVerif.Spec.C03
+import PdbVerif.Spec.C04
+import PdbVerif.Spec.C17
 
 namespace Driver.SpecB
-open Lean Driver
+open Lean Driver Driver.B Tbl
+
+/-- the limits the property statement names -/
+def piece : Nat := 950
+def limit : Nat := 999
+
+def answerJ : Spec.Answer → Json
+  | .rejected => "REJECTED"
+  | .tooManyVariables => "TOOMANY"
+  | .rows items => itemsJ items
+  | .perModel per => Json.mkObj [("models", .arr (per.map itemsJ).toArray)]
+
+/-- a history judged by the reference model; after a step the property does not speak about, the rest is `outside` -/
+def runHist (db : Db) : List Tbl.Op → List Json
+  | [] => []
+  | op :: rest =>
+    match Spec.step db op with
+    | .ok db' => Json.mkObj [("out", "ok"), ("db", dbJ db')] :: runHist db' rest
+    | .reject => Json.mkObj [("out", "reject"), ("db", dbJ db)] :: runHist db rest
+    | .outside => (op :: rest).map (fun _ => Json.mkObj [("out", "outside")])
 
 def op (name : String) (j : Json) : Except String (Option Json) := do
   match name with
+  | "get" =>
+    let db ← dbOfJson (← j.getObjVal? "db")
+    pure (some (answerJ (Spec.getOn piece limit db (← strOf j "columns") (← strOf j "tn") (← kwsOfJson j "kw"))))
+  | "get_xyz" =>
+    let db ← dbOfJson (← j.getObjVal? "db")
+    pure (some (answerJ (Spec.getOn piece limit db "x,y,z".toList (← strOf j "tn") (← kwsOfJson j "kw"))))
+  | "get_residues" =>
+    let db ← dbOfJson (← j.getObjVal? "db")
+    let kw ← kwsOfJson j "kw"
+    pure (some (match db.table? (← strOf j "tn"), kw.mapM (Spec.condOf db.extraNames) with
+      | some T, some q => .arr ((Spec.residues db.extra T q).map (fun vs => Json.arr (vs.map valJ).toArray)).toArray
+      | _, _ => "REJECTED"))
+  | "get_chains" =>
+    let db ← dbOfJson (← j.getObjVal? "db")
+    let kw ← kwsOfJson j "kw"
+    pure (some (match db.table? (← strOf j "tn"), kw.mapM (Spec.condOf db.extraNames) with
+      | some T, some q => .arr ((sortDedup Tbl.strLt ((Spec.selected db.extra T q).map (fun ri => ri.1.atom.chainID))).map strJ).toArray
+      | _, _ => "REJECTED"))
+  | "get_all" =>
+    let db ← dbOfJson (← j.getObjVal? "db")
+    pure (some (.arr ((Spec.getAll piece limit db (← strOf j "columns") (← kwsOfJson j "kw")).map answerJ).toArray))
+  | "hist" =>
+    let db ← dbOfJson (← j.getObjVal? "db")
+    let ops ← (← jArr j "ops").toList.mapM opOfJson
+    pure (some (.arr (runHist db ops).toArray))
   | _ => pure none
 
 end Driver.SpecB
